@@ -1085,6 +1085,139 @@ def task_c_api(cases):
     return res
 
 
+# ---- blocked-then-unblocked deliveries (QPACK dynamic table): bytes from a REAL sending
+# H3Connection (checks/c14.py shapes via vlib/h3drive.Sender), message / push streams
+# delivered BEFORE the encoder-stream bytes they depend on, then the encoder stream
+# (whole, split in two / at every offset), logger off vs on at the receiver.
+BLOCK_SHAPES = ("dyn", "dyn_body_trailers", "dyn_trailers_min", "dyn_acked", "dyn_push", "dyn_push_min")
+
+
+def blocked_plans(sc, tier):
+    """[(label, [step])], step = (sid, offset, n, fin)"""
+    from checks import c14
+
+    st = sc["streams"]
+    enc = sc["enc"]
+    apps = c14.app_streams(sc)
+    others = [x for x in sc["order"] if x not in apps and x != enc and x != "d"]
+
+    def whole(sid):
+        return (sid, 0, len(st[sid]["data"]), st[sid]["fin"])
+
+    def split(sid, k):
+        n = len(st[sid]["data"])
+        return [(sid, 0, k, False), (sid, k, n - k, st[sid]["fin"])]
+
+    n_enc = len(st[enc]["data"]) if enc in st else 0
+    pre = [whole(x) for x in others]
+    plans = []
+    if n_enc == 0:
+        return plans
+    cuts = sorted(set([n_enc // 2] + (list(range(1, n_enc)) if tier == "thorough" else [1, n_enc - 1])))
+    cuts = [k for k in cuts if 0 < k < n_enc]
+    for order_name, order in (("apps_in_order", apps), ("apps_reversed", list(reversed(apps)))):
+        body = [whole(x) for x in order]
+        plans.append(("%s,encoder_last_whole" % order_name, pre + body + [whole(enc)]))
+        for k in cuts:
+            plans.append(("%s,encoder_last_split@%d" % (order_name, k), pre + body + split(enc, k)))
+        # each message stream individually ahead of the encoder stream, the rest after it
+        for x in order:
+            rest = [whole(y) for y in order if y != x]
+            plans.append(("%s,only_%s_before_encoder" % (order_name, x), pre + [whole(x), whole(enc)] + rest))
+        # encoder bytes in the middle of the message streams
+        for i in range(1, len(order)):
+            plans.append(("%s,encoder_after_%d_streams" % (order_name, i),
+                          pre + body[:i] + [whole(enc)] + body[i:]))
+    plans.append(("encoder_first", pre + [whole(enc)] + [whole(x) for x in apps]))
+    return plans
+
+
+def run_blocked(sc, plan, logging_on):
+    from aioquic.quic.events import StreamDataReceived
+    from aioquic.quic.logger import QuicLogger
+    from vlib import h3drive
+
+    rq = h3drive.RecQuic(sc["receiver_is_client"])
+    lg = None
+    if logging_on:
+        lg = QuicLogger()
+        rq._quic_logger = lg.start_trace(is_client=sc["receiver_is_client"], odcid=bytes(8))
+    h3 = H3Connection(rq, enable_webtransport=sc["wt"])
+    for op in sc["prelude"]:
+        if op[0] == "request":
+            sid = rq.get_next_available_stream_id()
+            h3.send_headers(sid, list(op[1]), end_stream=op[2])
+    log = []
+    exc = None
+    was_blocked = False
+    for sid, off, n, fin in plan:
+        data = sc["streams"][sid]["data"][off: off + n]
+        try:
+            with deadline():
+                evs = h3.handle_event(StreamDataReceived(data=data, end_stream=fin, stream_id=sid))
+        except RunTimeout:
+            exc = ("RunTimeout", "nontermination")
+            break
+        except Exception as e:  # noqa
+            exc = (type(e).__name__, classify(e)[1])
+            log.append((sid, off, "EXC", type(e).__name__))
+            break
+        log.append((sid, off, repr(evs)))
+        if any(s.blocked for s in h3._stream.values()):
+            was_blocked = True
+    streams = tuple((sid, tuple((k, h3drive._canon(v)) for k, v in sorted(vars(s).items())))
+                    for sid, s in sorted(h3._stream.items()))
+    conn = tuple((k, h3drive._canon(v)) for k, v in sorted(vars(h3).items()) if k not in h3drive._SKIP_CONN)
+    sent = tuple(r[1:] for r in rq.log)
+    jexc = None
+    if lg is not None:
+        try:
+            json.dumps(lg.to_dict())
+        except Exception as e:  # noqa
+            jexc = (type(e).__name__, classify(e)[1], str(e)[:100])
+    return (tuple(log), exc, streams if exc is None else None, conn if exc is None else None, rq.closed,
+            sent), was_blocked, jexc
+
+
+def task_c_blocked(item):
+    from checks import c14
+
+    shape, role, tier = item
+    res = {"cases": 0, "viol": [], "outcomes": set(), "qlogs": 0, "raised_both": 0, "blocked_cases": 0}
+    sc = c14.scenario(shape, role)
+    if "error" in sc:
+        raise core.HarnessError("c14 shape %s/%s could not be produced: %r" % (shape, role, sc))
+    for label, plan in blocked_plans(sc, tier):
+        a, blk, _ = run_blocked(sc, plan, False)
+        b, _blk2, jexc = run_blocked(sc, plan, True)
+        res["cases"] += 1
+        res["qlogs"] += 1
+        res["blocked_cases"] += 1 if blk else 0
+        res["outcomes"].add(core.stable_hash((a[1], a[4], len(a[0]), blk)))
+        loc = {"shape": shape, "role": role, "plan": label, "steps": [list(x) for x in plan]}
+        if jexc is not None:
+            res["viol"].append(({"monitor": "qlog.not_serialisable", "exc": jexc[0], "where": jexc[1],
+                                 "part": "h3blocked"},
+                                "json.dumps(QuicLogger.to_dict()) failed: %s: %s (shape %s/%s, %s)"
+                                % (jexc[0], jexc[2], shape, role, label), loc))
+        if a[1] is not None and a[1] == b[1]:
+            res["raised_both"] += 1
+        if a != b:
+            if b[1] is not None and a[1] is None:
+                sig = {"monitor": "logging_only_exception", "exc": b[1][0], "where": b[1][1],
+                       "entry": "H3Connection.handle_event", "setting": "qlog", "part": "h3blocked"}
+                what = ("%s raised from %s by H3Connection.handle_event only with the qlog logger while a "
+                        "QPACK-blocked stream is processed (c14 shape %s, sender %s, delivery %s)"
+                        % (b[1][0], b[1][1], shape, role, label))
+            else:
+                sig = {"monitor": "behaviour_differs", "field": "h3blocked", "setting": "qlog", "part": "h3blocked"}
+                what = ("HTTP/3 layer behaves differently with the qlog logger on a blocked/unblocked delivery "
+                        "(c14 shape %s, sender %s, %s): %s" % (shape, role, label, first_diff(a, b, "obs")))
+            res["viol"].append((sig, what, loc))
+    res["outcomes"] = sorted(res["outcomes"])
+    return res
+
+
 # ============================================================================ run
 def _report(ctx, raw_viol, mk_replay):
     """raw_viol: list of (sig, what, *locator).  One report per signature: the first in
@@ -1309,9 +1442,39 @@ def _run(ctx, batch):
         part_a()
     if not only or "peerbot" in only:
         part_b()
+    def part_cblocked():
+        nonlocal outcomes_total
+        from checks import c14
+
+        items = []
+        for shape in BLOCK_SHAPES:
+            for role in c14.SHAPE_BY_NAME[shape].roles:
+                items.append((shape, role, tier))
+        results = batch.get("cblk", task_c_blocked, items)
+        if results is None:
+            return
+        agg = {"cases": 0, "qlogs": 0, "raised_both": 0, "blocked_cases": 0}
+        outs = set()
+        viol = []
+        for r in results:
+            for k in agg:
+                agg[k] += r[k]
+            outs |= set(r["outcomes"])
+            viol += r["viol"]
+        viol.sort(key=lambda v: len(v[2]["steps"]))
+        _report(ctx, viol, lambda v: dict(v[2], part="h3blocked", tier=tier))
+        ctx.part("h3_blocked_then_unblocked", shapes=len(items), cases=agg["cases"], evaluations=2 * agg["cases"],
+                 transitions=agg["cases"], cases_with_a_blocked_stream=agg["blocked_cases"],
+                 qlog_documents_checked=agg["qlogs"], exceptions_in_both_settings=agg["raised_both"],
+                 distinct_nontrivial=len(outs), violations_raw=len(viol))
+        outcomes_total += len(outs)
+        if not ctx.violations and agg["blocked_cases"] < 10:
+            raise core.HarnessError("vacuous: only %d deliveries blocked a stream" % agg["blocked_cases"])
+
     if not only or "h3" in only:
         part_c()
         part_capi()
+        part_cblocked()
     if batch.collecting:
         return
 
@@ -1382,6 +1545,25 @@ def replay(ctx, obj):
                                                if m["label"] == rp["label"]], (rp["chunking"],)))
         for sig, what, _loc in r["viol"]:
             print("VIOLATION property=C20 replay=(replayed) %s: %s" % (sig["monitor"], what))
+            bad = 1
+    elif part == "h3blocked":
+        from checks import c14
+
+        sc = c14.scenario(rp["shape"], rp["role"])
+        plan = [tuple(x) for x in rp["steps"]]
+        outs = []
+        for lg in (False, True):
+            o, blk, jexc = run_blocked(sc, plan, lg)
+            outs.append(o)
+            print("logger=%s (a stream was blocked: %s)" % (lg, blk))
+            for line in o[0]:
+                print("    ", c14.kind(sc, line[0]), line)
+            if jexc:
+                print("VIOLATION property=C20 replay=(replayed) qlog not serialisable: %r" % (jexc,))
+                bad = 1
+        if outs[0] != outs[1]:
+            print("VIOLATION property=C20 replay=(replayed) differs with the qlog logger: %s"
+                  % first_diff(outs[0], outs[1], "obs"))
             bad = 1
     elif part == "h3api":
         cases = [c for c in api_menu() if c[0] == rp["api_case"]]
